@@ -640,6 +640,13 @@ fn c20(ctx: &Ctx) -> i32 {
                         report.fail(Failure { message: msg, signature: res.signature.unwrap_or_default(), replay: res.replay });
                     }
                 }
+            } else if r["engine"] == "BB-c20wide" {
+                if let Ok(res) = super::bb_c20w::replay_wide_agg(r) {
+                    if let Some(msg) = res.violation {
+                        println!("  replay {} still fails: {}", path.display(), msg);
+                        report.fail(Failure { message: msg, signature: res.signature.unwrap_or_default(), replay: res.replay });
+                    }
+                }
             } else if r["engine"] == "BB-c20" {
                 if let Ok(case) = serde_json::from_value::<BbCase>(r["case"].clone()) {
                     let res = eval_c20_bb(&case);
@@ -685,6 +692,21 @@ fn c20(ctx: &Ctx) -> i32 {
             stream: 120,
         };
         let (part, failures) = run_prop(&pr, || bb_case(BbParams { max_n: 8, failures: false, services: true, rendezvous: false }), eval_c20_bb);
+        report.add(part);
+        for f in failures {
+            report.fail(f);
+        }
+        let max = ctx.tier.pick(400, 1500);
+        let pr = PropRun {
+            ctx,
+            engine: "BB-wide",
+            rule: "one aggregate over 2..max members (log-uniform; builds, empty aggregates, aggregates over a shared build; optionally one failing member) requested through the real binary against the same members requested directly, under 1/2/4/default runtime threads: both exit or neither, same verdict, same finished scripts; non-trivial = more than 32 members (more acknowledgements than one inbox holds)",
+            total_cases: ctx.tier.pick(24, 240),
+            threads: 6.min(ctx.threads),
+            max_shrink_iters: 12,
+            stream: 121,
+        };
+        let (part, failures) = run_prop(&pr, || super::bb_c20w::wide_agg_case(max), super::bb_c20w::eval_wide_agg);
         report.add(part);
         for f in failures {
             report.fail(f);
